@@ -254,12 +254,14 @@ def record_events(T: Targets, rnd: random.Random, per_len: int, maxlen: int):
               ("sha512_crypt", G(sha2_crypt, "_512_transpose_map")), ("sha1_crypt", G(sha1_crypt, "sha1_crypt", "_chk_offsets")),
               ("sun_md5_crypt", G(sun_md5_crypt, "_chk_offsets")),
               ("libpass sha256", G(lsc, "_256_transpose_map")), ("libpass sha512", G(lsc, "_512_transpose_map"))]
+    # projections of other sizes than the hashes use: none, one, two offsets; repeated offsets
+    tables += [("projection-0", []), ("projection-1", [0]), ("projection-1b", [5]), ("projection-2", [1, 0]), ("projection-rep", [2, 2, 0, 1])]
     for tname, offs in tables:
         if offs is None:        # (an internal table that was renamed away: nothing to transpose with)
             chk.uncovered.append(f"transposition table of {tname} not found under its usual name")
             continue
         offs = list(offs)
-        size = max(offs) + 1
+        size = max(offs) + 1 if offs else 3
         eng = T.lb.h64_engine if tname.startswith("libpass") else T.pb.h64
         for k in range(max(2, per_len)):
             d = bytes(rnd.randrange(256) for _ in range(size))
